@@ -125,3 +125,112 @@ impl Write for FailSink {
         self.step()
     }
 }
+
+/// Compares every byte written with an expected transcript on the fly.
+pub struct ExpectSink<const R: usize> {
+    pub expected: [u8; R],
+    pub elen: usize,
+    pub pos: usize,
+    pub mismatch: bool,
+    pub pending: usize,
+}
+impl<const R: usize> ExpectSink<R> {
+    pub fn new(expected: [u8; R], elen: usize) -> Self {
+        Self {
+            expected,
+            elen,
+            pos: 0,
+            mismatch: false,
+            pending: 0,
+        }
+    }
+    pub fn ok(&self) -> bool {
+        !self.mismatch && self.pos == self.elen
+    }
+}
+impl<const R: usize> ErrorType for ExpectSink<R> {
+    type Error = Infallible;
+}
+impl<const R: usize> Write for ExpectSink<R> {
+    fn write(&mut self, b: &[u8]) -> Result<usize, Infallible> {
+        let mut i = 0;
+        while i < b.len() {
+            if self.pos < self.elen && self.pos < R && self.expected[self.pos] == b[i] {
+                self.pos += 1;
+            } else {
+                self.mismatch = true;
+            }
+            i += 1;
+        }
+        self.pending += b.len();
+        Ok(b.len())
+    }
+    fn flush(&mut self) -> Result<(), Infallible> {
+        self.pending = 0;
+        Ok(())
+    }
+}
+
+/// Remembers what was written since the last LF (the current terminal row, raw).
+pub struct TailSink<const K: usize> {
+    pub tail: [u8; K],
+    pub len: usize,
+    pub lfs: usize,
+    pub over: bool,
+    pub pending: usize,
+    pub written: usize,
+}
+impl<const K: usize> TailSink<K> {
+    pub fn new() -> Self {
+        Self {
+            tail: [0; K],
+            len: 0,
+            lfs: 0,
+            over: false,
+            pending: 0,
+            written: 0,
+        }
+    }
+    pub fn tail_is(&self, s: &str) -> bool {
+        let b = s.as_bytes();
+        if self.over || self.len != b.len() {
+            return false;
+        }
+        let mut i = 0;
+        while i < K {
+            if i < b.len() && self.tail[i] != b[i] {
+                return false;
+            }
+            i += 1;
+        }
+        true
+    }
+}
+impl<const K: usize> ErrorType for TailSink<K> {
+    type Error = Infallible;
+}
+impl<const K: usize> Write for TailSink<K> {
+    fn write(&mut self, b: &[u8]) -> Result<usize, Infallible> {
+        let mut i = 0;
+        while i < b.len() {
+            if b[i] == b'\n' {
+                self.len = 0;
+                self.over = false;
+                self.lfs += 1;
+            } else if self.len < K {
+                self.tail[self.len] = b[i];
+                self.len += 1;
+            } else {
+                self.over = true;
+            }
+            i += 1;
+        }
+        self.pending += b.len();
+        self.written += b.len();
+        Ok(b.len())
+    }
+    fn flush(&mut self) -> Result<(), Infallible> {
+        self.pending = 0;
+        Ok(())
+    }
+}
